@@ -1,5 +1,6 @@
 import Solvor.Net.Lemmas
 import Solvor.Net.RatLemmas
+import Solvor.Net.Kcore
 /-!
 Net: the property theorems of C15 (helper lemmas are in `Lemmas.lean` / `RatLemmas.lean`).
 -/
@@ -62,6 +63,34 @@ example : IsTransversal [0, 1, 2, 3] (fun u w => (u, w) == (1, 0) || (u, w) == (
     · exact ⟨2, by simp, Reach.refl _⟩
     · exact ⟨3, by simp, Reach.refl _⟩
 
+/-! ## Low-link DFS (`articulation_points`, `bridges`) -/
+
+-- FULL STATEMENT (not proved): C15 [S] low-link correctness –
+-- theorem lowlink_correct (G : Graph) (hn : G.nodes.Nodup) :
+--     (∀ v, v ∈ (lowlink G).1 ↔ v ∈ cutVerticesDef G) ∧
+--     (∀ e, e ∈ (lowlink G).2 ↔ e ∈ bridgesDef G) ∧ (lowlink G).2.Nodup
+-- (the mirror of the repaired low-link DFS returns exactly the vertices / edges whose removal
+-- increases `compCount`).  Until it is proved the equality is established per explored input: the
+-- driver evaluates `lowlink`, `cutVerticesDef` and `bridgesDef` and the check compares all three
+-- with the implementation.
+
+/-- Proved part: every vertex the mirror reports is a node, every reported bridge `(a, b)` has
+`a < b` and is an edge of the symmetric closure of the neighbour relation. -/
+theorem lowlink_partial (G : Graph) :
+    (∀ x ∈ (lowlink G).1, x ∈ G.nodes) ∧
+    (∀ e ∈ (lowlink G).2, e.1 < e.2 ∧ (G.arc e.1 e.2 = true ∨ G.arc e.2 e.1 = true)) := by
+  obtain ⟨h1, h2⟩ := lowlink_ok G
+  refine ⟨h1, fun e he => ⟨(h2 e he).1, ((mem_sadj G e.1 e.2).1 (h2 e he).2).2⟩⟩
+
+/-- non-vacuity / the defect's witness on the repaired mirror: no cut vertex, no bridge
+(`nodes=[1,3,2,4,0]`, `0→[2] 1→[1,4,0] 2→[4,1] 3→[] 4→[2]`), and a path with both -/
+def exAP : Graph := ⟨[1, 3, 2, 4, 0], fun v => if v = 0 then [2] else if v = 1 then [1, 4, 0] else
+  if v = 2 then [4, 1] else if v = 4 then [2] else []⟩
+example : lowlink exAP = ([], []) ∧ cutVerticesDef exAP = [] ∧ bridgesDef exAP = [] := by decide
+example : lowlink ⟨[0, 1, 2], fun v => if v = 1 then [0, 2] else []⟩ = ([1], [(1, 2), (0, 1)]) ∧
+    cutVerticesDef ⟨[0, 1, 2], fun v => if v = 1 then [0, 2] else []⟩ = [1] ∧
+    bridgesDef ⟨[0, 1, 2], fun v => if v = 1 then [0, 2] else []⟩ = [(0, 1), (1, 2)] := by decide
+
 /-! ## T-spec: core numbers by repeated deletion -/
 
 /-- `kcoreDef G k` (literal repeated deletion of nodes of degree below `k`) is the *greatest* set of
@@ -92,6 +121,63 @@ theorem coreNumDef_spec (G : Graph) (v : Nat) (hv : v ∈ G.nodes) :
 /-- non-vacuity: triangle 0-1-2 with the pendant node 3 (edges listed from one side only) -/
 def exKC : Graph := ⟨[3, 0, 1, 2], fun v => if v = 0 then [1, 2] else if v = 1 then [2, 1] else if v = 3 then [2] else []⟩
 example : kcoreDef exKC 2 = [0, 1, 2] ∧ exKC.nodes.map (coreNumDef exKC) = [1, 2, 2, 2] := by decide
+
+/-- C15 [S] `kcore_peeling_correct`: for distinct nodes and any neighbour lists, the bucket-peeling
+mirror of `kcore_decomposition` – whatever element each `set.pop()` returns and in whatever order each
+`for w in adj[v]` walks the set (any admissible oracle) – returns a dict whose keys are exactly the
+nodes and whose values are the definitional core numbers (largest `k` surviving repeated deletion
+of nodes of degree below `k`). -/
+theorem kcore_peeling_correct (G : Graph) (hn : G.nodes.Nodup) (R : KOracle) (hR : R.Valid) :
+    (∀ x, hasKey (kcoreRun R G) x = true ↔ x ∈ G.nodes) ∧
+    (∀ v ∈ G.nodes, aget (kcoreRun R G) v 0 = coreNumDef G v) := by
+  unfold kcoreRun
+  split
+  · rename_i he
+    have : G.nodes = [] := List.isEmpty_iff.1 he
+    simp [this, hasKey]
+  · simp only
+    obtain ⟨hB0, hC0⟩ := kInit_inv G hn
+    obtain ⟨hB, hC⟩ := levels_inv G hn R hR _ (kInit G) hB0 hC0 (kInit G).buckets.length
+    generalize (List.range (kInit G).buckets.length).foldl
+      (fun st k => kLevel R G.sadj k (G.nodes.length + 1) st) (kInit G) = stF at hB hC
+    have hpos : 0 < (kInit G).buckets.length := by simp [kInit]
+    have hemp : ∀ w, w ∉ und G stF.core := by
+      intro w hw
+      have h1 := hB.deg w hw
+      have h2 := hB.dle w hw
+      omega
+    have hall : ∀ v ∈ G.nodes, hasKey stF.core v = true := by
+      intro v hv
+      cases hq : hasKey stF.core v with
+      | true => rfl
+      | false => exact absurd (mem_und.2 ⟨hv, hq⟩) (hemp v)
+    refine ⟨fun x => ⟨hC.keys x, hall x⟩, ?_⟩
+    intro v hv
+    obtain ⟨h1, h2⟩ := hC.done v (hall v hv)
+    obtain ⟨s1, s2⟩ := coreNumDef_spec G v hv
+    have hle := s2 _ h1
+    rcases Nat.lt_or_ge (aget stF.core v 0) (coreNumDef G v) with hlt | hge
+    · exact absurd (kcoreDef_anti G hn (by omega : aget stF.core v 0 + 1 ≤ coreNumDef G v) v s1) h2
+    · omega
+
+/-- `kcore(k)` of the mirror is the set of nodes surviving the deletion at level `k`. -/
+theorem kcore_set_correct (G : Graph) (hn : G.nodes.Nodup) (R : KOracle) (hR : R.Valid) (k : Nat)
+    (v : Nat) (hv : v ∈ G.nodes) :
+    aget (kcoreRun R G) v 0 ≥ k ↔ v ∈ kcoreDef G k := by
+  rw [(kcore_peeling_correct G hn R hR).2 v hv]
+  obtain ⟨s1, s2⟩ := coreNumDef_spec G v hv
+  constructor
+  · intro h; exact kcoreDef_anti G hn h v s1
+  · intro h; exact s2 k h
+
+example : headOracle.Valid := by
+  constructor
+  · intro i l hl
+    cases l with
+    | nil => exact absurd rfl hl
+    | cons a l => simp [headOracle]
+  · intro i l; exact List.Perm.refl _
+example : exKC.nodes.Nodup ∧ kcoreRun headOracle exKC = [(3, 1), (0, 2), (1, 2), (2, 2)] := by decide
 
 /-! ## T-model: one PageRank iteration at `Rat` -/
 
@@ -269,6 +355,9 @@ theorem pagerank_residual_bound (G : Graph) (d tol : Rat) (old : Nat → Rat) (h
   linarith
 
 example : exPR.nodes.Nodup ∧ exPR.nodes ≠ [] ∧ (0 : Rat) ≤ 17 / 20 := ⟨by decide, by decide, by norm_num⟩
+/-- non-vacuity of the stopping hypothesis: the uniform vector is stationary on the directed 3-cycle -/
+example : ∀ v ∈ [0, 1, 2], prStep ratOps ⟨[0, 1, 2], fun v => [(v + 1) % 3]⟩ (17 / 20) (fun _ => 1 / 3) v = 1 / 3 := by
+  decide +kernel
 
 /-! ## T-spec: the PageRank checker -/
 
